@@ -1,4 +1,6 @@
 import Cfdm.Lemmas.LazyRead
+import Cfdm.Lemmas.H5Index
+import Cfdm.Lemmas.Dtype
 /-
 C12 — backends and lazy access give the same data as eager access.  Property theorems only.
 
@@ -12,7 +14,7 @@ orthogonal indexing); `C12_subspace_commutes` shows that this flag cannot change
 equality of what the two C libraries deliver is checked by the correspondence run only.
 -/
 namespace Cfdm.Props.C12
-open Cfdm.PySlice Cfdm.Arr Cfdm.Indexing Cfdm.Lazy
+open Cfdm.PySlice Cfdm.Arr Cfdm.Indexing Cfdm.Lazy Cfdm.H5Index
 
 variable {α : Type} [DecidableEq α]
 
@@ -25,7 +27,8 @@ FULL STATEMENT (false for the code as it is, see `C12_read_realises_counterexamp
     variables whose values give the decoded shapes.
 PROVED under the hypothesis that no variable has one of the two roles the reader realises needlessly
 (geometry node coordinates without `part_node_count`: `bounds_insert_dimension`; UGRID connectivity
-stored cell-dimension-last: `data.transpose()`), for every backend, every number and shape of
+stored cell-dimension-last: `data.transpose()`; UGRID edge / face connectivity with a non-zero
+`start_index`: `data.array - start_index`), for every backend, every number and shape of
 variables: (1) no dataset is left open; (2) variable `k` ends as `disk` pointing at its own
 (file, address, shape) unless its role is exempt; (3) every fetch made while reading is the whole of
 a scalar coordinate variable (or its bounds) or of a count/index variable. -/
@@ -70,12 +73,15 @@ example : ((readFile nc4 (fun _ => iota [2]) { heap := [], log := [], handles :=
     = ([true, false, true], [⟨⟨0, 2⟩, []⟩, ⟨⟨0, 4⟩, [[0, 1, 2, 3]]⟩]) := by decide
 
 /-- The excluded roles are really brought into memory by the reader as coded: geometry node
-coordinates without parts, and a transposed UGRID connectivity (open findings). -/
+coordinates without parts, a transposed UGRID connectivity, and a one-based UGRID edge / face
+connectivity (open findings). -/
 theorem C12_read_realises_counterexample :
     (readFile nc4 (fun _ => iota [5]) { heap := [], log := [], handles := 0 }
       [⟨⟨0, 0⟩, [5], .nodesFlat⟩]).heap.map AState.isDisk = [false] ∧
     (readFile nc4 (fun _ => iota [2, 4]) { heap := [], log := [], handles := 0 }
-      [⟨⟨0, 0⟩, [2, 4], .connT⟩]).heap.map AState.isDisk = [false] := by decide
+      [⟨⟨0, 0⟩, [2, 4], .connT⟩]).heap.map AState.isDisk = [false] ∧
+    (readFile nc4 (fun _ => iota [4, 2]) { heap := [], log := [], handles := 0 }
+      [⟨⟨0, 0⟩, [4, 2], .connS⟩]).heap.map AState.isDisk = [false] := by decide
 
 /-! ### Values are fetched only when inspected or modified -/
 
@@ -253,6 +259,24 @@ theorem C12_memory_data_never_fetch (b : Backend) (st : Store α) (w : World α)
       split
       · exact hput i a inplace
       · exact hput i _ inplace
+  | squeeze i inplace =>
+    cases hs : w.heap[i]? with
+    | none => simp only [step, hs]; first | exact ⟨rfl, h⟩ | exact ⟨trivial, h⟩
+    | some s =>
+      obtain ⟨a, rfl⟩ := hmem i s hs
+      simp only [step, hs, getArray]
+      split
+      · exact hput i a inplace
+      · exact hput i _ inplace
+  | flatten i inplace =>
+    cases hs : w.heap[i]? with
+    | none => simp only [step, hs]; first | exact ⟨rfl, h⟩ | exact ⟨trivial, h⟩
+    | some s =>
+      obtain ⟨a, rfl⟩ := hmem i s hs
+      simp only [step, hs, getArray]
+      split
+      · exact hput i a inplace
+      · exact hput i _ inplace
   | insertDim i inplace =>
     cases hs : w.heap[i]? with
     | none => simp only [step, hs]; first | exact ⟨rfl, h⟩ | exact ⟨trivial, h⟩
@@ -368,36 +392,8 @@ theorem C12_subspace_commutes {b : Backend} (hb : b.strict = false) (st : Store 
 theorem C12_takeAll_compose (A : Arr α) (s t : List (List Nat)) (hs : s.length = A.shape.length)
     (ht : PosOK (s.map List.length) t) :
     EqvIn (takeAll (takeAll A s) t)
-      (takeAll A (List.zipWith (fun (l m : List Nat) => m.map (fun j => l.getD j 0)) s t)) := by
-  have hts : t.length = s.length := by simpa using ht.1
-  have hsh1 : (takeAll A s).shape = s.map List.length := takeAll_shape A s hs
-  constructor
-  · rw [takeAll_shape _ t (by rw [hsh1]; simpa using hts),
-        takeAll_shape A _ (by simp [hts, hs])]
-    apply List.ext_getElem?
-    intro i
-    simp only [List.getElem?_map, List.getElem?_zipWith]
-    by_cases hi : i < t.length
-    · have : i < s.length := by omega
-      simp [hi, this]
-    · have : ¬ i < s.length := by omega
-      simp [hi, this]
-  · intro idx hidx
-    rw [takeAll_shape _ t (by rw [hsh1]; simpa using hts)] at hidx
-    simp only [takeAll, takeSome]
-    congr 1
-    apply List.ext_getElem?
-    intro k
-    simp only [List.getElem?_zipWith, List.getElem?_map]
-    by_cases hk : k < idx.length
-    · have hkt : k < t.length := by have := hidx.1; simp at this; omega
-      have hks : k < s.length := by omega
-      have hlt := hidx.2 k hk (by simpa using hkt)
-      simp only [List.getElem_map] at hlt
-      simp only [List.getElem?_eq_getElem hk, List.getElem?_eq_getElem hkt, List.getElem?_eq_getElem hks,
-        Option.map_some, pick]
-      simp [List.getD_eq_getElem?_getD, List.getElem?_map, List.getElem?_eq_getElem hlt]
-    · simp [List.getElem?_eq_none (Nat.le_of_not_lt hk)]
+      (takeAll A (List.zipWith (fun (l m : List Nat) => m.map (fun j => l.getD j 0)) s t)) :=
+  takeAll_compose A s t hs ht
 
 /-- Non-vacuity: rows [3,1,0] of a 4-row array, then elements [2,0] of those = rows [0,3]. -/
 example : PosOK ([[3, 1, 0]].map List.length) [[2, 0]] ∧
@@ -413,7 +409,8 @@ example : PosOK ([[3, 1, 0]].map List.length) [[2, 0]] ∧
 
 /-- **Refinement.**  Start from any heap of lazy objects (on disk or in memory, related to eager
 arrays handle by handle) and perform ANY history of copy / subspace / to_memory / array /
-assignment / equals / element access / str / transpose / insert_dimension / metadata operations:
+assignment / equals / element access / str / transpose / insert_dimension / squeeze / flatten / metadata
+operations:
 every observation (arrays and their shapes, truth values of `equals`, elements shown, new handle
 numbers, errors raised) is the one eager access gives on arrays that were in memory from the start. -/
 theorem C12_lazy_refines_eager {b : Backend} (hb : b.strict = false) (st : Store α) (w : World α)
@@ -534,6 +531,209 @@ theorem C12_backend_reads_superset (b : Backend) (shape : List Nat) (sels : List
 example : selsWf [3, 4] [.list [0, 2], .list [1, 3]] = true ∧
     backendReads h5 [3, 4] [.list [0, 2], .list [1, 3]] = [[0, 2], [0, 1, 2, 3]] ∧
     backendReads nc4 [3, 4] [.list [0, 2], .list [1, 3]] = [[0, 2], [1, 3]] := by decide
+
+/-! ### The h5netcdf path: `netcdf_indexer._variable_subspace` (repair 4483ba2) -/
+
+/-- **A negative-step slice is read in ascending order and reversed**: for EVERY axis size, start,
+stop and negative step, `_variable_subspace` hands h5py a slice with a positive step whose positions
+are exactly the positions of the original slice in the opposite order (the ascending slice is
+anchored on the last selected element `r[-1]`, not on `stop + 1`), and records the reversal. -/
+theorem C12_h5_negative_step_slice (n : Nat) (a b : Option Int) (c : Int) (hc : c < 0) :
+    ∃ x y k, (vsAxis n (.slice a b (some c))).1 = .slice x y k ∧ (∀ v, k = some v → 0 < v) ∧
+      (vsAxis n (.slice a b (some c))).2 = .rev ∧
+      slicePositions x y k n = (slicePositions a b (some c) n).reverse :=
+  vsAxis_neg_slice n a b c hc
+
+/-- Non-vacuity, every residue of `start - stop - 1` modulo `|step| = 3`: `8:1:-3`, `8:0:-3`,
+`8::-3` and `7:0:-3` on an axis of 10, and an empty selection. -/
+example : (vsAxis 10 (.slice (some 8) (some 1) (some (-3)))).1 = .slice (some 2) (some 9) (some 3) ∧
+    (vsAxis 10 (.slice (some 8) (some 0) (some (-3)))).1 = .slice (some 2) (some 9) (some 3) ∧
+    (vsAxis 10 (.slice (some 8) none (some (-3)))).1 = .slice (some 2) (some 9) (some 3) ∧
+    (vsAxis 10 (.slice (some 7) (some 0) (some (-3)))).1 = .slice (some 1) (some 8) (some 3) ∧
+    (vsAxis 10 (.slice (some 2) (some 5) (some (-1)))).1 = .slice (some 0) (some 0) none := by decide
+
+/-- The variant `slice(stop + 1, start + 1, -step)` reads other elements whenever `|step|` does not
+divide `start - stop - 1`: `8:0:-3` selects 8, 5, 2; the variant reads 1, 4, 7. -/
+theorem C12_h5_wrong_anchor_counterexample :
+    natPositions 10 (.slice (some 8) (some 0) (some (-3))) = [8, 5, 2] ∧
+    natPositions 10 (vsAxis 10 (.slice (some 8) (some 0) (some (-3)))).1 = [2, 5, 8] ∧
+    natPositions 10 (vsAxisWrong 10 (.slice (some 8) (some 0) (some (-3)))).1 = [1, 4, 7] := by decide
+
+/-- **One axis of `_variable_subspace`**, every size and every well-formed selector (slice with any
+start / stop / non-zero step, list with any order, repeats and negative entries): h5py — which takes
+only positive steps and strictly increasing in-range lists — accepts what it is handed; the
+`reorder` entry applied to what comes back yields exactly the positions of the original selector in
+the original order; and what h5py is asked for is exactly the distinct requested positions in
+storage order (so the library reads "only that part", each element once). -/
+theorem C12_h5_variable_subspace_axis (n : Nat) (s : Sel) (hwf : s.wf n = true) :
+    h5Accepts n (vsAxis n s).1 = true ∧
+    (reorderPs (natPositions n (vsAxis n s).1).length (vsAxis n s).2).map
+        (fun j => (natPositions n (vsAxis n s).1).getD j 0) = natPositions n s ∧
+    natPositions n (vsAxis n s).1 = H5Index.unique (natPositions n s) := by
+  have h := vsAxis_spec n s hwf
+  exact ⟨h.1, h.2.2.2.1, h.2.2.2.2.2⟩
+
+example : (Sel.list [3, -4, 3, 7, 0]).wf 10 = true ∧
+    vsAxis 10 (.list [3, -4, 3, 7, 0]) = (.list [0, 3, 6, 7], .inv [1, 2, 1, 3, 0]) := by decide
+
+/-- **`_variable_subspace`, N dimensions**: for every array, rank and well-formed index with at most
+one list axis (all that `_index` hands it for an h5py variable) the strict h5py accepts the
+translated index and the reordered result is the orthogonal selection `takeAll A ps`. -/
+theorem C12_h5_variable_subspace (A : Arr α) (sels : List Sel) (hwf : selsWf A.shape sels = true)
+    (h1 : (listAxes sels).length ≤ 1) :
+    ∃ B, variableSubspace A sels = .ok B ∧ EqvIn B (takeAll A (positionsNat A.shape sels)) :=
+  variableSubspace_spec A sels hwf h1
+
+/-- Non-vacuity: `v[::-2, [3, 1, 3]]` on a 4 x 5 variable. -/
+example : selsWf [4, 5] [.slice none none (some (-2)), .list [3, 1, 3]] = true ∧
+    (listAxes [.slice none none (some (-2)), .list [3, 1, 3]]).length ≤ 1 ∧
+    content (variableSubspace (iota [4, 5]) [.slice none none (some (-2)), .list [3, 1, 3]]) =
+      some ([2, 3], [18, 16, 18, 8, 6, 8]) ∧
+    h5Reads [4, 5] [.slice none none (some (-2)), .list [3, 1, 3]] = [[1, 3], [1, 3]] := by decide
+
+/-- **The whole of `netcdf_indexer._index` on an h5py variable never refuses and returns the
+orthogonal selection** — any number of list axes, any order, repeats, negative steps.  This is what
+the abstract backend `h5` of the history model assumes (`h5.strict = false`, `indexBackend h5`). -/
+theorem C12_h5_index_refines (A : Arr α) (sels : List Sel) (hwf : selsWf A.shape sels = true) :
+    ∃ B, indexH5 A sels = .ok B ∧ EqvIn B (indexBackend h5 A sels) ∧
+      EqvIn B (takeAll A (positionsNat A.shape sels)) :=
+  indexH5_spec A sels hwf
+
+example : selsWf [3, 4, 2] [.list [2, 0], .list [3, 3, 1], .slice none none (some (-1))] = true ∧
+    content (indexH5 (iota [3, 4, 2]) [.list [2, 0], .list [3, 3, 1], .slice none none (some (-1))]) =
+      some ([2, 3, 2], [23, 22, 23, 22, 19, 18, 7, 6, 7, 6, 3, 2]) := by decide
+
+/-- What the library is asked for: on every axis the distinct requested positions, increasing. -/
+theorem C12_h5_reads_sorted_distinct (shape : List Nat) (sels : List Sel) (hwf : selsWf shape sels = true)
+    (h1 : (listAxes sels).length ≤ 1) :
+    h5Reads shape sels = (positionsNat shape sels).map H5Index.unique := by
+  unfold h5Reads
+  simp only [h1, if_true]
+  exact vsIndex_reads shape sels hwf
+
+/-- The code before the repair handed the index to h5py as it was: a reversed slice, an unsorted list
+and a repeated list are refused, the repaired `_variable_subspace` serves them. -/
+theorem C12_h5_old_index_counterexample :
+    content (indexH5Old (iota [4]) [.slice none none (some (-1))]) = none ∧
+    content (indexH5Old (iota [4]) [.list [2, 0]]) = none ∧
+    content (indexH5Old (iota [4]) [.list [1, 1]]) = none ∧
+    content (indexH5Old (iota [4]) [.list [-3, -1]]) = some ([2], [1, 3]) ∧
+    content (indexH5 (iota [4]) [.slice none none (some (-1))]) = some ([4], [3, 2, 1, 0]) ∧
+    content (indexH5 (iota [4]) [.list [2, 0]]) = some ([2], [2, 0]) ∧
+    content (indexH5 (iota [4]) [.list [1, 1]]) = some ([2], [1, 1]) := by decide
+
+/-! ### Data types: lazy data advertise the type of the values they deliver -/
+
+section DtypeSection
+open Cfdm.Dtype
+
+/-- **`Data.dtype` of lazy data is the data type of the fetched array** — for every stored type,
+every combination of `scale_factor` / `add_offset` types (present or absent, neutral value or
+not), `_Unsigned` or not, every variable role and `cfdm.read(unpack=True|False)`: what
+`_create_netcdfarray` / `_unpacked_dtype` (as repaired by a007f9a) records at read time equals what
+`netcdf_indexer.__getitem__` delivers.  So bringing data into memory cannot change `dtype`, and with
+it neither `equals` nor the type a later `cfdm.write` chooses. -/
+theorem C12_dtype_consistent (unpackOn : Bool) (v : Var) : advertised unpackOn v = delivered unpackOn v := by
+  obtain ⟨vt, sc, off, un, isd⟩ := v
+  cases unpackOn
+  · rfl
+  · cases sc with
+    | none =>
+      cases off with
+      | none => simp [advertised, delivered, unpack, Var.packed]
+      | some a => obtain ⟨adt, an⟩ := a; cases an <;> simp [advertised, delivered, unpack, Var.packed]
+    | some s =>
+      obtain ⟨sdt, sn⟩ := s
+      cases off with
+      | none => cases sn <;> simp [advertised, delivered, unpack, Var.packed]
+      | some a =>
+        obtain ⟨adt, an⟩ := a
+        cases sn <;> cases an <;> simp [advertised, delivered, unpack, Var.packed]
+
+/-- Non-vacuity: int32 packed with float32 attributes (→ float64), an `_Unsigned` int16
+(→ uint16), neutral packing of float64 with a float32 scale factor (→ float32, netCDF4-python's
+rule), a packed coordinate variable, and the order-dependent promotion int16 · uint16 + float32. -/
+example : delivered true ⟨.i4, some ⟨.f4, false⟩, some ⟨.f4, false⟩, false, true⟩ = .f8 ∧
+    delivered true ⟨.i2, none, none, true, true⟩ = .u2 ∧
+    delivered true ⟨.f8, some ⟨.f4, true⟩, none, false, true⟩ = .f4 ∧
+    delivered true ⟨.i2, some ⟨.f4, false⟩, none, false, false⟩ = .f4 ∧
+    delivered true ⟨.i2, some ⟨.u2, false⟩, some ⟨.f4, false⟩, false, true⟩ = .f8 ∧
+    delivered false ⟨.i2, some ⟨.f4, false⟩, none, true, true⟩ = .i2 := by decide
+
+/-- FULL STATEMENT for the code before a007f9a (false, see `C12_dtype_old_counterexamples`):
+    `∀ unpackOn v, advertisedOld unpackOn v = delivered unpackOn v`.
+PROVED for the variables on which `_create_netcdfarray` as it was coded then is right — not unpacking, or: no
+`_Unsigned` view, and no packing or non-neutral packing of a field's DATA variable whose three types
+are not one of the order-dependent promotions. -/
+theorem C12_dtype_old_partial (unpackOn : Bool) (v : Var) (h : v.oldConsistent unpackOn = true) :
+    advertisedOld unpackOn v = delivered unpackOn v := by
+  obtain ⟨vt, sc, off, un, isd⟩ := v
+  cases unpackOn
+  · simp [advertisedOld, delivered]
+  · have hview : (Var.mk vt sc off un isd).viewed = vt := by
+      simp only [Var.oldConsistent, Bool.not_true, Bool.false_or, Bool.and_eq_true, Bool.or_eq_true,
+        Bool.not_eq_true', bne_iff_ne, ne_eq] at h
+      simp only [Var.viewed]
+      rcases h.1 with h1 | h1
+      · simp [h1]
+      · have : (vt.kind == Kind.int) = false := by simpa using h1
+        simp [this]
+    simp only [delivered, if_true, hview]
+    cases sc with
+    | none =>
+      cases off with
+      | none => simp [advertisedOld, unpack, Var.packed]
+      | some a =>
+        obtain ⟨adt, an⟩ := a
+        cases isd <;> cases an <;>
+          simp [Var.oldConsistent, Var.packed] at h <;>
+          simp [advertisedOld, unpack, Var.packed, Var.values, resultTypeL]
+    | some s =>
+      obtain ⟨sdt, sn⟩ := s
+      cases off with
+      | none =>
+        cases isd <;> cases sn <;>
+          simp [Var.oldConsistent, Var.packed] at h <;>
+          simp [advertisedOld, unpack, Var.packed, Var.values, resultTypeL]
+      | some a =>
+        obtain ⟨adt, an⟩ := a
+        have hsw : exotic vt sdt adt = false → resultType vt (resultType adt sdt) = resultType (resultType vt sdt) adt :=
+          resultType_swap vt sdt adt
+        cases isd <;> cases sn <;> cases an <;>
+          simp [Var.oldConsistent, Var.packed] at h <;>
+          simp [advertisedOld, unpack, Var.packed, Var.values, resultTypeL] <;>
+          exact hsw (by simpa using h.2)
+
+example : (Var.mk .i2 (some ⟨.f4, false⟩) (some ⟨.f8, false⟩) false true).oldConsistent true = true ∧
+    (Var.mk .f4 none none true false).oldConsistent true = true := by decide
+
+/-- None of the hypotheses of `C12_dtype_old_partial` can be dropped (the four findings repaired by a007f9a): a packed
+COORDINATE variable advertises the packed type; an `_Unsigned` variable advertises the signed type;
+neutral packing delivers the type of the attribute while the promoted type is advertised; and
+int16 · uint16 + float32 is promoted in another order than the arithmetic. -/
+theorem C12_dtype_old_counterexamples :
+    (advertisedOld true ⟨.i2, some ⟨.f4, false⟩, none, false, false⟩ = .i2 ∧
+      delivered true ⟨.i2, some ⟨.f4, false⟩, none, false, false⟩ = .f4) ∧
+    (advertisedOld true ⟨.i2, none, none, true, true⟩ = .i2 ∧ delivered true ⟨.i2, none, none, true, true⟩ = .u2) ∧
+    (advertisedOld true ⟨.f8, some ⟨.f4, true⟩, none, false, true⟩ = .f8 ∧
+      delivered true ⟨.f8, some ⟨.f4, true⟩, none, false, true⟩ = .f4) ∧
+    (advertisedOld true ⟨.i2, some ⟨.u2, false⟩, some ⟨.f4, false⟩, false, true⟩ = .f4 ∧
+      delivered true ⟨.i2, some ⟨.u2, false⟩, some ⟨.f4, false⟩, false, true⟩ = .f8) := by decide
+
+/-- The promotion that decides the unpacked type: `np.result_type(a, b)` is symmetric, an upper
+bound of both types in numpy's safe-cast order and a minimal one; it is associative except on the
+triples {float32, uint16, int8|int16}, where it is not. -/
+theorem C12_dtype_promotion (a b : DT) :
+    resultType a b = resultType b a ∧ safeCast a (resultType a b) = true ∧ safeCast b (resultType a b) = true ∧
+    (∀ c, safeCast a c = true → safeCast b c = true → safeCast c (resultType a b) = true → c = resultType a b) ∧
+    (∀ c, exotic a b c = false → resultType (resultType a b) c = resultType a (resultType b c)) :=
+  ⟨resultType_comm a b, (resultType_minimal_upper a b).1, (resultType_minimal_upper a b).2.1,
+    (resultType_minimal_upper a b).2.2, fun c h => resultType_assoc a b c h⟩
+
+example : resultType (resultType .i2 .u2) .f4 = .f8 ∧ resultType .i2 (resultType .u2 .f4) = .f4 ∧
+    exotic .i2 .u2 .f4 = true ∧ exotic .i4 .f4 .f8 = false := by decide
+
+end DtypeSection
 
 /-! ### The code before the patches -/
 
